@@ -62,6 +62,8 @@ def main():
     ap.add_argument("--no-lean", action="store_true", help="debug: skip translate/build/audit")
     a = ap.parse_args()
     prop = a.prop
+    if a.no_lean:
+        os.environ.setdefault("VERIF_EVIDENCE_DIR", "/tmp/verif-scratch-evidence")
     seed = int(os.environ.get("VERIF_SEED", "0") or 0)
     ctx = Ctx(prop, a.tier, seed)
     mod = importlib.import_module("props." + prop)
@@ -110,6 +112,7 @@ def main():
             return 2
 
     # ---- 4  correspondence: corpus first, then generated cases
+    ctx.start_budget()
     corpus = load_corpus(prop)
     gen_iter = mod.cases(ctx)
     if broken and hasattr(mod, "synth_cases"):
